@@ -547,6 +547,7 @@ impl<T, Flds> Recognizer for OrdinalFieldsRecognizer<T, Flds> {
 #[doc(hidden)]
 #[derive(Debug)]
 pub struct SimpleAttrBody<R: Recognizer> {
+    started: bool,
     after_content: bool,
     value: Option<R::Target>,
     delegate: R,
@@ -555,6 +556,7 @@ pub struct SimpleAttrBody<R: Recognizer> {
 impl<R: Recognizer> SimpleAttrBody<R> {
     pub fn new(rec: R) -> Self {
         SimpleAttrBody {
+            started: false,
             after_content: false,
             value: None,
             delegate: rec,
@@ -576,7 +578,14 @@ impl<R: Recognizer> Recognizer for SimpleAttrBody<R> {
             } else {
                 Some(Err(input.kind_error(ExpectedEvent::EndOfAttribute)))
             }
+        } else if !self.started && matches!(&input, ReadEvent::EndAttribute) {
+            // The body of the attribute was empty which is equivalent to an absent value.
+            match self.delegate.feed_event(ReadEvent::Extant) {
+                Some(r) => Some(r),
+                _ => Some(Err(ReadError::IncompleteRecord)),
+            }
         } else {
+            self.started = true;
             let r = self.delegate.feed_event(input)?;
             self.after_content = true;
             match r {
@@ -590,6 +599,7 @@ impl<R: Recognizer> Recognizer for SimpleAttrBody<R> {
     }
 
     fn reset(&mut self) {
+        self.started = false;
         self.after_content = false;
         self.value = None;
         self.delegate.reset();
